@@ -313,6 +313,13 @@ theorem noOrphan_step (hfix : ∀ n, n ≥ 2 → dropSinkRemovesEntry n = false)
             · exact h
             · rename_i s hs
               exact noOrphan_put h _ _ _ (h s (List.mem_iff_getElem?.mpr ⟨_, hs⟩))
+  | unsubscribeBad c rid =>
+    simp only [step, doUnsubscribeBad]
+    split
+    · exact h
+    · split
+      · exact h
+      · split <;> exact h
   | connClose c =>
     simp only [step, doConnClose]
     split <;> exact h
@@ -450,6 +457,73 @@ theorem c06_reuse (reqs : List (Nat × Nat × Nat)) : ∀ (st : State), Reachabl
       simp at hlen hp' ⊢
       omega
 
+/-! ### C06.1 — typed ids: `Num n` and `Str "n"` are different subscriptions -/
+
+/-- an unsubscribe that answers false only enqueues its response -/
+theorem unsub_false_state (st : State) (c m x rid : Nat)
+    (h : (step st (.unsubscribe c m x rid)).2 = .bool false) :
+    ∃ cn, st.conns[c]? = some cn ∧ cn.isOpen = true ∧
+      (step st (.unsubscribe c m x rid)).1 = putConn st c (cn.push (.unsub rid false)) := by
+  simp only [step, doUnsubscribe] at h ⊢
+  split at h
+  · simp at h
+  · rename_i cn hc
+    simp only [hc]
+    split at h
+    · simp at h
+    · rename_i ho
+      simp only [ho]
+      split at h
+      · simp at h
+      · rename_i hroom
+        simp only [hroom]
+        split at h
+        · rename_i hf
+          simp at ho
+          exact ⟨cn, rfl, ho.1, by simp⟩
+        · rename_i k hf
+          obtain ⟨s, hs, _⟩ := findIdx_some hf
+          simp [hs] at h
+
+/-- an unsubscribe that answers false changes no subscription record -/
+theorem unsub_false_changes_no_record (st : State) (c m x rid : Nat)
+    (h : (step st (.unsubscribe c m x rid)).2 = .bool false) :
+    (step st (.unsubscribe c m x rid)).1.subs = st.subs := by
+  obtain ⟨cn, _, _, e⟩ := unsub_false_state st c m x rid h
+  rw [e]; rfl
+
+/-- **C06.1, typed ids.**  The table is keyed by the typed id.  If subscription `t` is active under
+the typed id `a` and no subscription of that connection (and method) has the different typed id `b` —
+e.g. `a = Num 123`, `b = Str "123"`, or the other way round — then `unsubscribe(conn, b)` answers
+false and changes nothing: `t` stays active and keeps its slot. -/
+theorem c06_unsub_other_kind (st : State) (a b : SubId) (hab : a ≠ b) (t : Sub) (hact : Active st t)
+    (hnone : ∀ u ∈ st.subs, u.conn = t.conn → u.meth = t.meth → u.subId ≠ idKey b) (rid : Nat) (r : Bool)
+    (h : (step st (.unsubscribe t.conn t.meth (idKey b) rid)).2 = .bool r) :
+    r = false ∧ (step st (.unsubscribe t.conn t.meth (idKey b) rid)).1.subs = st.subs ∧
+      Active (step st (.unsubscribe t.conn t.meth (idKey b) rid)).1 t ∧ idKey a ≠ idKey b := by
+  have hr0 : r = false := c06_unsub_foreign st t.conn t.meth (idKey b) rid hnone r h
+  subst hr0
+  refine ⟨rfl, unsub_false_changes_no_record st _ _ _ _ h, ?_, fun e => hab (idKey_injective a b e)⟩
+  obtain ⟨cn, hc, ho, e⟩ := unsub_false_state st _ _ _ _ h
+  have hlen : t.conn < st.conns.length := by
+    rcases List.getElem?_eq_some_iff.mp hc with ⟨hh, _⟩; exact hh
+  refine ⟨hact.1, hact.2.1, hact.2.2.1, cn.push (.unsub rid false), ?_, by simpa [Conn.push] using ho⟩
+  rw [e]; simp [putConn, hlen]
+
+/-- an unsubscribe call whose parameter is not a subscription id at all (object, array, bool,
+null, float, negative, ≥ 2^64, wrong arity) is answered false and changes no record -/
+theorem c06_unsub_malformed (st : State) (c rid : Nat) :
+    (step st (.unsubscribeBad c rid)).1.subs = st.subs ∧
+      ∀ r, (step st (.unsubscribeBad c rid)).2 = .bool r → r = false := by
+  simp only [step, doUnsubscribeBad]
+  split
+  · simp
+  · split
+    · simp
+    · split
+      · simp
+      · simp [putConn]
+
 /-! ### C06.1 — id re-use: a late release never touches a newer subscription under the same id -/
 
 /-- Dropping a sink handle of subscription record `k` changes no other record: whatever is
@@ -551,6 +625,22 @@ example : ¬ DisciplinedRun (init [(2, 8)]) [.subscribe 0 0 1 5, .accept 0, .sub
 example : outs (init [(2, 8)]) [.subscribe 0 0 1 5, .accept 0, .subscribe 0 0 2 5, .accept 1, .isClosed 0,
       .isClosed 1, .unsubscribe 0 0 5 3, .isClosed 1]
     = [.pending 5, .ok, .pending 5, .ok, .bool true, .bool false, .bool true, .bool true] := by decide
+
+-- typed ids (seeded change C06-R3: the unsubscribe handler turned the string "7" into the number 7):
+-- the provider hands out the STRING id "7"; unsubscribe with the number 7 answers false and changes
+-- nothing, with the string "7" it answers true; a malformed parameter answers false
+example : idKey (.num 7) ≠ idKey (.str (lit "7")) := by decide
+example : outs (init [(1, 8)])
+    [.subscribe 0 0 1 (idKey (.str (lit "7"))), .accept 0, .unsubscribe 0 0 (idKey (.num 7)) 2, .isClosed 0,
+     .unsubscribeBad 0 3, .isClosed 0, .subscribe 0 0 4 (idKey (.num 7)),
+     .unsubscribe 0 0 (idKey (.str (lit "7"))) 5, .isClosed 0]
+    = [.pending (idKey (.str (lit "7"))), .ok, .bool false, .bool false, .bool false, .bool false, .refused,
+       .bool true, .bool true] := by decide
+-- … and the other way round: numeric id 7, the string "7" names nothing
+example : outs (init [(2, 8)])
+    [.subscribe 0 0 1 (idKey (.num 7)), .accept 0, .unsubscribe 0 0 (idKey (.str (lit "7"))) 2,
+     .unsubscribe 0 0 (idKey (.str (lit "007"))) 3, .unsubscribe 0 0 (idKey (.num 7)) 4]
+    = [.pending (idKey (.num 7)), .ok, .bool false, .bool false, .bool true] := by decide
 
 -- the truth table on a concrete history
 def okState : State := run (init [(1, 8), (1, 8)]) [.subscribe 0 0 7 1, .accept 0, .send 0 5]
